@@ -741,7 +741,10 @@ Definition wf_C01 (op : N) (f : fmt) (xs ys : list input_seq) (fts : list gft) (
          | [] => true
          | _ => match f with Gff => distinct (input_ids xs) && forallb wf_gft fts | _ => false end
          end
-  | 1%N => match f with Fasta => wf_basket Fasta (xs ++ ys) | _ => false end
+  | 1%N => match f with
+            | Fasta => wf_basket Fasta (xs ++ ys)
+            | _ => wf_basket f xs && wf_basket f ys      (* mode 'a' without append_<fmt>: write_<fmt> on a handle opened for appending *)
+            end
   | _ => wf_text f t
   end.
 
